@@ -126,30 +126,30 @@ def InputKind.isPassword : InputKind → Bool
 
 /-- Hand-written: every regenerated input place (id = hash of package, API, literal name, ordinal). -/
 def inputKinds : List (Nat × InputKind) := [
-  (1115508938, .dataFile),   -- codefiles.LoadInfoFile: os.Open 
-  (2428848602, .environment),   -- mytime.Now: os.Getenv TEST_TIME
-  (2506920320, .dataFile),   -- program.LoadConfig: os.ReadFile 
-  (4142683994, .terminalHandle),   -- program.Config.askPassword: os.Stdin 
-  (1756730485, .passwordTerminal),   -- program.Config.askPassword: term.ReadPassword 
-  (2557253177, .passwordFile),   -- program.Config.getSystemPassword: os.ReadFile 
-  (816535420, .dataFile),   -- status.Read: os.ReadFile 
-  (1466318609, .environment),   -- httpdevice.GetHTTPClient: os.Getenv SIMULATE_ROUTER
-  (945662864, .environment),   -- panos.State.ApplyCommands$commit: os.Getenv SIMULATE_ROUTER
-  (3397785892, .environment),   -- console.GetSSHConn: os.Getenv SIMULATE_ROUTER
-  (1369869031, .environment),   -- linux.State.putScp: os.Getenv SIMULATE_ROUTER
-  (1415680456, .dataFile),   -- device.state.loadSpocFile: os.ReadFile 
-  (256500083, .arguments),   -- doapprove.Main: os.Args 
-  (273277702, .arguments),   -- doapprove.Main$lit1: os.Args 
-  (3381454832, .flag),   -- doapprove.Main: flag.BoolP brief
-  (1528137050, .dataFile),   -- doapprove.Main: os.ReadFile 
-  (771325420, .arguments),   -- drc.Main: os.Args 
-  (821658277, .arguments),   -- drc.Main$lit1: os.Args 
-  (1802518308, .flag),   -- drc.Main: flag.BoolP compare
-  (3679324303, .flag),   -- drc.Main: flag.StringP logdir
-  (1846056336, .flag),   -- drc.Main: flag.StringP LOGFILE
-  (3649235345, .flag),   -- drc.Main: flag.StringP user
-  (926421715, .flag),   -- drc.Main: flag.BoolP quiet
-  (1341894647, .flag)   -- drc.Main: flag.BoolP version
+  (2880949429, .dataFile),   -- codefiles.LoadInfoFile: os.Open 
+  (518516805, .environment),   -- mytime.Now: os.Getenv TEST_TIME
+  (664981419, .dataFile),   -- program.LoadConfig: os.ReadFile 
+  (2758447557, .terminalHandle),   -- program.Config.askPassword: os.Stdin 
+  (3900004185, .passwordTerminal),   -- program.Config.askPassword: term.ReadPassword 
+  (1574504650, .passwordFile),   -- program.Config.getSystemPassword: os.ReadFile 
+  (566236935, .dataFile),   -- status.Read: os.ReadFile 
+  (3486749826, .environment),   -- httpdevice.GetHTTPClient: os.Getenv SIMULATE_ROUTER
+  (1643354683, .environment),   -- panos.State.ApplyCommands$commit: os.Getenv SIMULATE_ROUTER
+  (755359375, .environment),   -- console.GetSSHConn: os.Getenv SIMULATE_ROUTER
+  (854868184, .environment),   -- linux.State.putScp: os.Getenv SIMULATE_ROUTER
+  (3452394867, .dataFile),   -- device.state.loadSpocFile: os.ReadFile 
+  (40856948, .arguments),   -- doapprove.Main: os.Args 
+  (91189805, .arguments),   -- doapprove.Main$lit1: os.Args 
+  (2864344731, .flag),   -- doapprove.Main: flag.BoolP brief
+  (299519941, .dataFile),   -- doapprove.Main: os.ReadFile 
+  (4229746743, .arguments),   -- drc.Main: os.Args 
+  (4246524362, .arguments),   -- drc.Main$lit1: os.Args 
+  (963564687, .flag),   -- drc.Main: flag.BoolP compare
+  (2287372896, .flag),   -- drc.Main: flag.StringP logdir
+  (787952699, .flag),   -- drc.Main: flag.StringP LOGFILE
+  (2729896706, .flag),   -- drc.Main: flag.StringP user
+  (2186645204, .flag),   -- drc.Main: flag.BoolP quiet
+  (391612072, .flag)   -- drc.Main: flag.BoolP version
 ]
 
 def inputKind (id : Nat) : List (Nat × InputKind) → Option InputKind
